@@ -132,6 +132,9 @@ def skew_schedule(signals, vars_, sizes):
 def schedules(sc):
     """explicit, deterministic list of (name, rounds) from the scenario"""
     signals, vars_ = sc['signals'], sc['vars']
+    if sc.get('only_rounds'):
+        # a minimised replay: the failing schedule next to the reference schedule
+        return [('all_at_once', sync_schedule(signals, vars_, [])), ('pinned', sc['only_rounds'])], False
     inst = _instants(signals, vars_)
     m = len(inst)
     out = [('all_at_once', sync_schedule(signals, vars_, []))]
@@ -295,11 +298,29 @@ def shrinks(sc):
             c = copy.deepcopy(s)
             c['skew'] = []
             yield c
-    for c in common.shrink_dense(sc, extra=extra):
+        if not s.get('only_rounds'):
+            # pin one schedule (the minimiser keeps the first one that still fails)
+            for name, rounds in schedules(s)[0][1:60]:
+                c = copy.deepcopy(s)
+                c['only_rounds'] = rounds
+                c['skew'] = []
+                c['sync_picks'] = []
+                yield c
+        unused = [v for v in s['vars'] if v not in sg.vars_of(s['ast'])]
+        if unused and not s.get('only_rounds'):
+            c = copy.deepcopy(s)
+            c['vars'] = [v for v in s['vars'] if v not in unused]
+            c['signals'] = dict((v, s['signals'][v]) for v in c['vars'])
+            c['skew'] = []
+            yield c
+    import itertools as _it
+    for c in _it.chain(common.shrink_dense(sc), extra(sc)):
         if not sg.vars_of(c['ast']):
             continue
         if c['signals'] != sc['signals']:
             c['skew'] = []
+            if c.get('only_rounds'):
+                continue
         if any(x[0] in sg.FUTURE_OPS for x in sg.walk(c['ast'])):
             c['pastify'] = True
         if any(len(c['signals'][v]) < 1 for v in c['vars']):
